@@ -1,1 +1,3 @@
 import Pw.Props.C02
+import Pw.Props.C17
+import Pw.Props.C20
